@@ -328,6 +328,8 @@ func (w *World) Build(op Op) Cmd {
 		sub = append(sub, "compact") // executed on the twin only
 	case "fault":
 		return w.Build(*op.Inner)
+	case "chop_newline":
+		sub = append(sub, "list") // never executed
 	default:
 		panic("unknown op kind " + op.Kind)
 	}
@@ -341,7 +343,7 @@ func (w *World) Build(op Op) Cmd {
 // IsMutation says whether the op can change the store when it succeeds.
 func (o Op) IsMutation() bool {
 	switch o.Kind {
-	case "prune", "init":
+	case "prune", "init", "chop_newline":
 		return false
 	}
 	return true
